@@ -75,6 +75,17 @@ class NumericalSolver:
         else: 
             return False
 
+def _convert_right(left, right):
+    """ Express the right operand of + and - in units of the left operand
+
+    Only operands of the same dimension can be added; Quantity.to() would
+    also convert between reciprocal dimensions (e.g. 1/m -> m).
+    """
+    if not left.baseunits.nodim:
+        if not left.baseunits.dimensions==right.baseunits.dimensions:
+            raise Exception("Unsupported conversion between units:", right.baseunits.expression, left.baseunits.expression)
+        right.to(left.baseunits)
+
 class CustomOperatorAdd(OperatorAdd):
     symbol: str = ' + '
     def operate_unary(self, tokens):
@@ -96,8 +107,7 @@ class CustomOperatorAdd(OperatorAdd):
             tokens.put_right(right)
     def operate_binary(self, tokens):
         left, right = tokens.get_left(), tokens.get_right()
-        if not left.baseunits.nodim:
-            right.to(left.baseunits)
+        _convert_right(left, right)
         tokens.put_left(left + right)
 
 class CustomOperatorSub(OperatorSub):
@@ -121,8 +131,7 @@ class CustomOperatorSub(OperatorSub):
             tokens.put_right(right)
     def operate_binary(self, tokens):
         left, right = tokens.get_left(), tokens.get_right()
-        if not left.baseunits.nodim:
-            right.to(left.baseunits)
+        _convert_right(left, right)
         tokens.put_left(left - right)
 
 class CustomOperatorMul(OperatorMul):
